@@ -899,8 +899,51 @@ static Plan gen_select(Rng& r, int tier, std::string const&)
     p.mapd = 0;
     p.calls.assign(1, tier ? 400 : 120);
     p.fk = F_POLY;
-    p.variant = r.below(3);
+    p.variant = r.below(4);
+    if (p.variant == 3)
+    {
+        // standard engines (some with min() != 0): a boundary is placed right next to a number the engine
+        // really produces, once above and once below it
+        static int const eng[] = {E_MINSTD0, E_MINSTD, E_KNUTH_B, E_KNUTH_B, E_MT19937, E_RANLUX24_BASE, E_RANLUX48, E_MT19937_64};
+        p.eng = r.pick(eng);
+        p.chan = 2;
+        p.wts = 0;
+        p.dims = 1;
+        p.calls.assign(1, 40 + r.below(40));
+        p.faults.clear();
+        p.aux.assign(1, r.next());
+    }
     return p;
+}
+
+// the canonical number libstdc++'s generate_canonical forms from the raw outputs of a standard engine
+// (the last m of the four raw outputs before the integrand was entered; oldest first)
+static bool canonical_std(int nt, int eng, u64 const raws[4], ld& out)
+{
+    ld mn = 0, mx = 0;
+    switch (eng)
+    {
+    case E_MINSTD0: case E_MINSTD: case E_KNUTH_B: mn = 1; mx = 2147483646.0L; break;
+    case E_MT19937: mx = 4294967295.0L; break;
+    case E_MT19937_64: mx = 18446744073709551615.0L; break;
+    case E_RANLUX24_BASE: case E_RANLUX24: mx = 16777215.0L; break;
+    case E_RANLUX48_BASE: case E_RANLUX48: mx = 281474976710655.0L; break;
+    default: return false;
+    }
+    unsigned const digits = (nt == NT_F) ? 24 : (nt == NT_D) ? 53 : 64;
+    ld const R = mx - mn + 1.0L;
+    std::size_t const log2r = static_cast<std::size_t>(std::log(R) / std::log(2.0L));
+    std::size_t const m = std::max<std::size_t>(1, (digits + log2r - 1) / log2r);
+    if (m > 4) return false;
+    ld sum = 0, tmp = 1;
+    for (std::size_t k = 0; k != m; ++k)
+    {
+        ld const v = round_to(nt, static_cast<ld>(raws[4 - m + k]) - mn);
+        sum = round_to(nt, sum + round_to(nt, v * tmp));
+        tmp = round_to(nt, tmp * R);
+    }
+    out = round_to(nt, sum / tmp);
+    return out >= 0 && out < 1;
 }
 
 // cumulative boundaries as the numeric type forms them
@@ -918,8 +961,81 @@ static std::vector<ld> cumulative_T(int nt, std::vector<ld> const& w)
     return s;
 }
 
+static void exec_select_std(Plan const& p, Report& rep)
+{
+    std::string const key = fmt("multi_channel %s %s", nt_name(p.nt), engine_name(p.eng));
+    rep.nontrivial = true;
+    RunCtl const ctl = ctl_from_plan(p);
+
+    // first pass: which numbers does the engine give to the selector?
+    std::vector<ld> us;
+    {
+        Report scratch;
+        Session s(p, scratch);
+        s.check = false;
+        s.fresh();
+        RunOut const o = s.run(p.calls, ctl);
+        if (o.threw || o.killed || o.results == 0) return;
+        for (auto const& rec : o.ranks[0].calls)
+        {
+            ld u = 0;
+            if (!canonical_std(p.nt, p.eng, rec.raws, u)) return;
+            us.push_back(u);
+        }
+    }
+    if (us.empty()) return;
+
+    ld const eps = eps_of(p.nt);
+    // a call whose number is not small (the integer weights resolve 2^-63 absolutely)
+    std::size_t c = static_cast<std::size_t>(p.aux.empty() ? 0 : p.aux[0] % us.size());
+    for (std::size_t tries = 0; tries != us.size() && !(us[c] > 0.25L && us[c] < 0.99L); ++tries) c = (c + 1) % us.size();
+    ld const u = us[c];
+    if (!(u > 0.25L && u < 0.99L)) return;
+
+    for (int side = 0; side != 2; ++side)
+    {
+        // the boundary between the two channels 64 eps above (below) the number of call c: the call must
+        // select channel 0 (1)
+        ld const b = (side == 0) ? u * (1 + 64 * eps) : u * (1 - 64 * eps);
+        Plan q = p;
+        q.variant = 77;
+        q.wts = 1;
+        q.minw = 0;
+        q.aux.assign(2, 0);
+        q.aux[0] = static_cast<u64>(std::llroundl(std::ldexp(b, 63)));
+        q.aux[1] = (1ULL << 63) - q.aux[0];
+        Session s(q, rep);
+        s.fresh();
+        RunOut const o = s.run(q.calls, ctl_from_plan(q));
+        if (o.threw || o.killed || o.results == 0) return;
+        if (c >= o.ranks[0].calls.size()) return;
+        CallRec const& rec = o.ranks[0].calls[c];
+        ld u2 = 0;
+        if (!canonical_std(p.nt, p.eng, rec.raws, u2) || u2 != u)
+        {
+            // the weights do not move the stream (C10): the call sees the same raw outputs
+            rep.fail("C09", "selector-number-moved", key, fmt("call %zu got another number after the weights changed (%.21Lg, %.21Lg)", c, u, u2));
+            return;
+        }
+        u64 const want = (side == 0) ? 0 : 1;
+        rep.probes["boundary-next-to-an-engine-output"]++;
+        if (rec.channel != want)
+        {
+            rep.fail("C09", "outside-interval", key, fmt(
+                "call %zu: the engine's outputs give the canonical number %.21Lg, the boundary between the two channels is at %.21Lg, channel %u was selected",
+                c, u, b, rec.channel));
+            return;
+        }
+    }
+}
+
 static void exec_select(Plan const& p, Report& rep)
 {
+    if (p.variant == 3 && p.eng >= 2 && p.eng != E_SCRIPT14)
+    {
+        exec_select_std(p, rep);
+        return;
+    }
     std::string const key = fmt("multi_channel %s", nt_name(p.nt));
     std::unique_ptr<IWorld> w0 = make_world(p.nt, p.eng);
     w0->fresh(p);
@@ -1256,8 +1372,43 @@ static void exec_bins(Plan const& p, Report& rep)
     Session s(p, rep);
     s.fresh();
     RunCtl const ctl = ctl_from_plan(p);
-    s.run(p.calls, ctl);
+    RunOut const o = s.run(p.calls, ctl);
     rep.nontrivial = true;
+
+    // a parameter scan: the program keeps one checkpoint object and copy-assigns the checkpoint of
+    // every run over it; the runs have the same numbers of bins and other ranges. What the kept object
+    // reports afterwards is the run it was assigned from.
+    if (!p.dists.empty() && !o.threw && !o.killed && !o.hang && o.results == p.calls.size() && (mix2(p.fseed, 5150) % 3) == 0)
+    {
+        Plan q = p;
+        for (auto& d : q.dists)
+        {
+            ld const wx = d.xmax - d.xmin;
+            d.xmin = static_cast<float>(d.xmin - 0.25L * wx);
+            d.xmax = static_cast<float>(d.xmax + 0.5L * wx);
+            if (d.two_d)
+            {
+                ld const wy = d.ymax - d.ymin;
+                d.ymin = static_cast<float>(d.ymin + 0.125L * wy);
+                d.ymax = static_cast<float>(d.ymax + 2 * wy);
+            }
+        }
+        Report scratch;
+        Session kept(q, scratch);
+        kept.check = false;
+        kept.fresh();
+        RunOut const o2 = kept.run(q.calls, ctl_from_plan(q));
+        if (!o2.threw && !o2.killed && !o2.hang && o2.results == o.results && kept.w->assign_from(*s.w))
+        {
+            rep.probes["checkpoint-copy-assigned-over-another"]++;
+            std::string const diff = compare_views(s.w->view(), kept.w->view(), false);
+            if (!diff.empty() || kept.w->text() != s.w->text())
+            {
+                rep.fail("C11", "copy-assigned-result-differs", fmt("%s %s", integ_name(p.integ), nt_name(p.nt)),
+                    diff.empty() ? std::string("the text of the assigned checkpoint differs") : diff);
+            }
+        }
+    }
 }
 
 // ------------------------------------------------------------------------------------------------
